@@ -4,6 +4,6 @@ package random
 // and block-handler properties are executed twice on the same symbolic inputs under independent symbolic map
 // orders and host-clock readings, in one process; both executions must end in the same stores and balances
 // (verifSelfCompose, harness/rt).
-func VerifC11_Self_C12_Random() { verifSelfCompose(VerifC12_Random) }
-func VerifC11_Self_C18_BeginBlock() { verifSelfCompose(VerifC18_BeginBlock) }
+func VerifC11_Self_C12_Random()         { verifSelfCompose(VerifC12_Random) }
+func VerifC11_Self_C18_BeginBlock()     { verifSelfCompose(VerifC18_BeginBlock) }
 func VerifC11_Self_C18_OracleResponse() { verifSelfCompose(VerifC18_OracleResponse) }
